@@ -56,7 +56,8 @@ func init() {
 	core.Register(&core.Rule{
 		ID:    "R10.4",
 		Title: "equality helpers: length first, every element, nil handling",
-		Text: "GenericArray and GenericMap return false on a length mismatch before the loop, return false from the loop on the first unequal element (maps by key lookup with the presence test), and true after it; " +
+		Text: "GenericArray and GenericMap, on the control flow graph: anything but the constant false is returned only on paths where the two lengths compared equal and a loop over one of the containers (range, or index from 0 by 1 below len) " +
+			"ran to its natural end, every iteration of which reached the loop head again only through the true outcome of equals(P[k], Q[k]) on the two different containers (and, for maps, of the presence test of k in the other map); " +
 			"GenericPointer is evaluated over all combinations of (left nil, right nil, same pointer, elements equal) and must equal: both nil or same pointer -> true, exactly one nil -> false, else elements equal (A-finite, exhaustive).",
 		Props: []string{"C10"},
 		Floor: map[string]int{"v2": 3, "root": 3},
